@@ -7,4 +7,4 @@ mkdir -p /tmp/vstage/verif && git -C /verif checkout-index -a --prefix=/tmp/vsta
 if [ -d /tmp/vstage/verif.old/lean/.lake ]; then mv /tmp/vstage/verif.old/lean/.lake /tmp/vstage/verif/lean/; else rsync -a /verif/lean/.lake /tmp/vstage/verif/lean/; fi
 rm -rf /tmp/vstage/verif.old
 cd /tmp/vstage/verif && (cd lean && lake build TempestVerif driver 2>&1 | grep -E "error|Build completed|✖" | head -20)
-for c in "$@"; do echo $c; done | xargs -P 6 -I{} sh -c 'VERIF_SEED=${VERIF_SEED:-0} VERIF_EVIDENCE_DIR=/tmp/vstage/ev ./check {} --tier quick > /tmp/vstage/{}.log 2>&1; echo "{} rc=$? $(tail -1 /tmp/vstage/{}.log | cut -c1-150)"'
+for c in "$@"; do echo $c; done | xargs -P 6 -I{} sh -c 'VERIF_SEED=${VERIF_SEED:-0} VERIF_EVIDENCE_DIR=/tmp/vstage/ev ./check {} --tier ${STAGE_TIER:-quick} > /tmp/vstage/{}.log 2>&1; echo "{} rc=$? $(tail -1 /tmp/vstage/{}.log | cut -c1-150)"'
